@@ -745,6 +745,25 @@ func main() {
 		observe(ps, "create")
 		c.start()
 		observe(ps, "restart")
+	case "lagging-empty":
+		// while a follower is down the last dataset is deleted and the logs are compacted: the snapshot it
+		// catches up from describes an EMPTY catalogue
+		c.kill()
+		if d2 != "" {
+			del(a, d2)
+		}
+		observe(ps, "delete")
+		for _, p := range []*proc{a, b} {
+			if p.checkAlive() {
+				p.cmd.Process.Signal(syscall.SIGUSR1)
+			}
+		}
+		time.Sleep(1500 * time.Millisecond)
+		emit(event{"ev": "snapshotted"})
+		c.start()
+		observe(ps, "restart")
+		create(c, 1, 2)
+		observe(ps, "create")
 	case "lagging-leave":
 		// a follower is down while a node leaves (the partitions' replica sets change) and the log is compacted
 		// (several fully replicated datasets: whichever node is first in a partition's replica set proposes
